@@ -108,6 +108,7 @@ class C13(Spec):
             "polar_lock_one_speaker_layouts_partial",
             # C05 exactness of the composed panner plugged in: no panner hypothesis left on the ten regenerated layouts
             "norm_tables_match", "pspHandle_exact_at_norm", "polar_lock_one_speaker_layouts",
+            "polar_lock_one_speaker_layouts_tables",
             "downmixForExcluded_cast", "alloExcluded_cast", "getExcluded_spec", "zoneMatch_cart_spec", "whileLoop_spec",
             "insideAngleRange_spec", "zoneMatch_polar_spec",
             "screen_position_identity",
@@ -236,12 +237,19 @@ class C13(Spec):
         write_if_changed(GEN + "/C13_Tables.lean", "\n".join(out) + "\n")
         # Props/C13 imports Props/C05 (per-region exactness, `tables_wellFormed`): regenerate C05's tables too so that
         # the reused `decide` obligation is about the code as it is now (also under EAR_REPO)
-        try:
-            from . import c05
+        # A failed regeneration is a BROKEN OBLIGATION of this check: the headline theorems of section 12
+        # (`polar_lock_one_speaker_layouts*`, `norm_tables_match`, `pspHandle_exact_at_norm`) depend on Gen/C05_Tables,
+        # Gen/C05_Cover and Gen/C05_Exact, and old-but-consistent generated files would otherwise let them report ok.
+        from . import c05
 
+        try:
             c05.SPEC.extract(ctx)
-        except Exception as e:  # C05's own check reports its extraction problems; here only noted
-            ctx.notes.append("C05 table regeneration skipped: %r" % (e,))
+            ctx.obligation("extract:C05-tables", True,
+                           "Gen/C05_Tables.lean, Gen/C05_Cover.lean, Gen/C05_Exact.lean regenerated from configure() by C05's extractor")
+        except Exception as e:
+            ctx.obligation("extract:C05-tables", False,
+                           "C05's extractor raised %r: the C05 tables/certificates the section-12 theorems depend on were not "
+                           "regenerated from the code as it is now" % (e,))
 
     # ---------------------------------------------------------------- correspondence
 
@@ -992,7 +1000,14 @@ REGISTRY = dict(
     "rejects k's position, that region answers e_k, the virtual-loudspeaker downmix / stereo wrapper keep it; exact "
     "arithmetic on a certificate regenerated from configure() on every run), and the table obligation "
     "norm_tables_match (decide +kernel) says that layout.norm_positions[k] of the C13 table is the position of channel k "
-    "in the C05 region table (pspHandle_exact_at_norm). screenRef: screen_identity (equal edges => scale_az_el = id), "
+    "in the C05 region table (pspHandle_exact_at_norm); polar_lock_one_speaker_layouts_tables states it with the layout's own "
+    "regenerated priority list and groups (L.prio, L.groups: no hypothesis about prio/groups left, prio.length = n stated, "
+    "0 <= diffuse <= 1 assumed). SUBSTITUTION in all polar_lock_one_speaker_layouts* theorems: the `pan` argument of "
+    "renderPolarLock is instantiated with the BARE point-source panner GainCalc.pspHandle, whereas the real pan is "
+    "extent_pan(position, 0, 0, 0) = PolarExtentHandler.handle AROUND that panner (model: GainCalc.polarPointPan, "
+    "calc_pv_spread with zero extent); that the wrapper returns the panner's e_k unchanged at a loudspeaker position is NOT "
+    "proved here (C01 proves polarPointPan's contract; the correspondence runs the whole real render). A failed regeneration "
+    "of the C05 tables/certificates these theorems depend on is a broken obligation (extract:C05-tables). screenRef: screen_identity (equal edges => scale_az_el = id), "
     "screen_position_identity (whole polar step scale_position = id given the C19 round trip of the conversions, "
     "which are parameters); compensate_position modelled (identity without U+045 / at elevation 0 and 90). Float "
     "rounding at thresholds, the polar panner's region order, downmix wrappers and the whole GainCalc.render are covered "
